@@ -534,10 +534,15 @@ def convert_to_folded_model(model):
       successor_layer = graph.nodes[successor_ids[0]]["layer"][0]
       followed_by_bn = (successor_layer.__class__.__name__ ==
                         "BatchNormalization")
+      # A layer with its own activation computes bn(activation(conv(x)));
+      # the folded layer would compute activation(bn(conv(x))).
+      activation = getattr(layer, "activation", None)
+      has_activation = (activation is not None and
+                        getattr(activation, "__name__", None) != "linear")
       # TODO(lishanok): extend to QDense types
       is_foldable = layer.__class__.__name__ in [
           "Conv2D", "DepthwiseConv2D"
-      ] and is_single and followed_by_bn
+      ] and is_single and followed_by_bn and not has_activation
 
       if is_foldable:
         # Removes the batchnorm node from the graph.
